@@ -14,6 +14,27 @@ CLAIMED = {
        "binary64 rounding are outside the model (1e-9 relative tolerance). `Computes` for CSE blocks is validated per instance, not proven symbolically.",
   technique="Lean 4 proof (refinement to by-name spec) + translator from lambdify seam + differential correspondence",
   design="5 C01"),
+ "C10": dict(
+  text="Lean 4 theorems (FormakVerif.C10: equal_no_step, direction, bounded, sum_close, segment_ok, py_eq_cpp) prove for every current time, target "
+       "time and max step > 0, over exact rational arithmetic, that the step plan both runtimes implement takes no step when the times coincide, "
+       "that every step points in the direction of travel, none exceeds the maximum and the steps sum to the difference within 1e-9. Tie: the same "
+       "generic `plan` definition instantiated with native binary64 is compared bit-for-bit with runtime.py (recording stand-in filter) and with "
+       "ManagedFilter.h compiled from the working tree with a recording Impl (3 control/calibration combinations, 6 max_dt values).",
+  note="Trusted: Lean kernel + standard axioms; Lean native Float = IEEE binary64 (same hardware ops as CPython/g++ -ffp-contract=off); harness. "
+       "The float versions of the four clauses are evaluated per run (tests) with slack 1e-9 + 4 ulp; they are not theorems.",
+  technique="Lean 4 proof (floor/remainder algebra over Q) + bit-exact differential correspondence of the generic plan",
+  design="5 C10"),
+ "C11": dict(
+  text="Lean 4 theorems (FormakVerif.C11: py_refines, cpp_refines, same_trace, readonly, insert_readonly, control_required, runHistory_append) prove, "
+       "for every history of ticks and any abstract filter, that explicit-mutation models of the Python and the C++ tick both equal the property's fold "
+       "(propagate to each reading's timestamp in the order given, update, hold; report at the output time without holding), hence agree with each "
+       "other, that inserting a reading-less tick anywhere changes no other tick's result, and that a control model cannot be ticked without control. "
+       "Tie: call traces of both real runtimes on seeded multi-tick histories with unsorted timestamps vs the Lean models executed with the "
+       "recording filter, plus a by-hand replay oracle and a negative compile test for the C++ control clause.",
+  note="Trusted: Lean kernel + standard axioms; harness; g++ overload resolution/static_assert for the C++ control clause; the step plan inside a "
+       "tick is the one verified under C10.",
+  technique="Lean 4 proof (refinement of both runtimes to one fold; induction over histories) + trace correspondence",
+  design="5 C11"),
 }
 REASONS_TODO = "check not built yet in this round (see DESIGN.md section 10 build order); no claim is made"
 
